@@ -1,7 +1,7 @@
 (* C12 — formatting an executable document and parsing it back.  Statements only. *)
 From GQL.model Require Import Base Utf8 Lexer Format.
 From GQL.model Require Import Ast Parser Prog ParseQuery.
-From GQL.proofs Require Import QuoteRoundtrip NumberGrammar TypeRoundtrip.
+From GQL.proofs Require Import QuoteRoundtrip NumberGrammar TypeRoundtrip ValueRoundtrip.
 
 (* String values survive byte for byte: whatever valid UTF-8 text v a String/BlockString value
    holds, the text Value.String prints for it is read back by the lexer as one String token whose
@@ -52,3 +52,47 @@ Example C12_types_nonvacuous :
   type_string t = b "[[Int!]]!" /\ type_names_ok t
   /\ erase_type (fst (run dev_none (parseTypeReference 8) 8 (pst_init (b "[[Int!]]!") 0 0))) = t.
 Proof. split; [reflexivity|]. split; [exists 73%N, (b "nt"); repeat split|vm_compute; reflexivity]. Qed.
+
+(* Values survive: the text Value.String prints for a value — a variable, number, word (enum, true,
+   false, null), string or block string, or a list or input object of such values nested to any
+   depth — is parsed back by parseValueLiteral as the same value: kinds (a block string comes back
+   as a string), texts, string bytes, field names and the order of elements and fields; positions
+   differ.  value_ok: every scalar has the text of its kind (NumberGrammar's int/float grammar, a
+   name, valid UTF-8 for strings), object field names are names.  The value may be followed by the
+   end of the text or by `,` `]` `}` `)` blank or line end (sep_ok); the parser stops exactly behind
+   it.  fuel bounds the nesting the parser may descend, F the number of elements of one list; the
+   parser and the lexer are the functions the correspondence check runs against /repo
+   (d F_L1 = false: numbers are lexed with the look-ahead restriction, as /repo does since b8dd3c1). *)
+Theorem C12_values_survive : forall d F, d F_L1 = false -> forall v, value_ok v ->
+  forall fuel s txt, (value_depth v <= fuel)%nat -> (value_width v < F)%nat ->
+  ready d s (value_string v ++ txt) -> sep_ok txt ->
+  let r := run d (parseValueLiteral fuel false) F s in
+  erase_value (fst r) = erase_value v /\ fresh (snd r) txt /\ src (snd r) = src s.
+Proof. exact value_roundtrip. Qed.
+Print Assumptions C12_values_survive.
+
+(* the printed value alone, from a fresh parser: the same value, all text read, no error *)
+Theorem C12_value_alone : forall d v, d F_L1 = false -> value_ok v ->
+  forall F fuel limit ix, (value_depth v <= fuel)%nat -> (value_width v < F)%nat -> limit = 0%N ->
+  let r := run d (parseValueLiteral fuel false) F (pst_init (value_string v) limit ix) in
+  erase_value (fst r) = erase_value v /\ has_err (snd r) = false /\ peeked (snd r) = None /\ rest (plx (snd r)) = nil.
+Proof. exact value_roundtrip_alone. Qed.
+Print Assumptions C12_value_alone.
+
+(* [{a:1,b:"x"},$v,null] *)
+Example C12_values_nonvacuous :
+  let sc k raw := mkValue k raw nil pos0 in
+  let v := mkValue VList nil
+             (cons (nil, None, mkValue VObject nil (cons (b "a", None, sc VInt (b "1")) (cons (b "b", None, sc VBlock (b "x")) nil)) pos0)
+             (cons (nil, None, sc VVar (b "v")) (cons (nil, None, sc VNull (b "null")) nil))) pos0 in
+  value_string v = b "[{a:1,b:""x""},$v,null]" /\ value_ok v
+  /\ erase_value (fst (run dev_none (parseValueLiteral 8 false) 8 (pst_init (value_string v) 0 0))) = erase_value v.
+Proof.
+  split; [reflexivity|]. split; [|vm_compute; reflexivity].
+  assert (Hn : forall c, is_name_start c = true -> name_text (cons c nil)) by (intros c H; exists c, nil; repeat split; exact H).
+  cbn [value_ok]. repeat split; try reflexivity; try (apply Hn; reflexivity).
+  - apply so_int. left. apply ui_nz; [reflexivity|discriminate|reflexivity].
+  - apply so_block. apply (wf_cons _ 120%N 1%nat); [discriminate|reflexivity|reflexivity|constructor].
+  - apply so_var. apply Hn. reflexivity.
+  - apply (so_word (b "null")). exists 110%N, (b "ull"). repeat split.
+Qed.
